@@ -1030,6 +1030,16 @@ int ov_fopen(const char *path,OggVorbis_File *vf){
 int ov_halfrate(OggVorbis_File *vf,int flag){
   int i;
   if(vf->vi==NULL)return OV_EINVAL;
+
+  /* set the flags before the decode machine is rebuilt below, so that
+     it is rebuilt (and the position recovered) at the new rate */
+  for(i=0;i<vf->links;i++){
+    if(vorbis_synthesis_halfrate(vf->vi+i,flag)){
+      if(flag) ov_halfrate(vf,0);
+      return OV_EINVAL;
+    }
+  }
+
   if(vf->ready_state>STREAMSET){
     /* clear out stream state; dumping the decode machine is needed to
        reinit the MDCT lookups. */
@@ -1040,13 +1050,6 @@ int ov_halfrate(OggVorbis_File *vf,int flag){
       ogg_int64_t pos=vf->pcm_offset;
       vf->pcm_offset=-1; /* make sure the pos is dumped if unseekable */
       ov_pcm_seek(vf,pos);
-    }
-  }
-
-  for(i=0;i<vf->links;i++){
-    if(vorbis_synthesis_halfrate(vf->vi+i,flag)){
-      if(flag) ov_halfrate(vf,0);
-      return OV_EINVAL;
     }
   }
   return 0;
